@@ -113,6 +113,9 @@ def model_query(case, impl_res):
     qs.append(dict(p=PID, op='ptt', wfs=DC.fracs(sm['clusters_wfs']), rate=DC.frac(rate), nan_idx=sm['nan_idx']))
     qs.append(dict(p=PID, op='depths', ys=DC.fracs([p[1] for p in sm['channel_positions']]), peaks=sm['clusters_channels'],
                    nan_idx=sm['nan_idx'], spike_clusters=sm['spike_clusters']))
+    # peak channels of the TEMPLATES (they select the rows of templates.waveformsChannels and are not exported
+    # themselves): recomputed by the C09 model from the stored template waveforms
+    qs.append(dict(p='C09', op='channels', wfs=DC.fracs(sm['templates']), rate=DC.frac(rate)))
     spec = case.get('spec')
     if spec is not None:
         # cluster waveforms of the source model against the C08 model (curated datasets)
@@ -208,6 +211,8 @@ def judge(case, impl_res, ans):
             return 'MACHINERY: model channel rows rejected by their own spec'
         if res[i]['impl_spec'] is not True:
             return 'SPEC: %s.waveformsChannels are not the nearest same-probe channels, peak first' % fam
+        if res[i].get('impl_peak_first') is False:
+            return 'MACHINERY: rows accepted by nearestOK do not start with the peak channel (contradicts nearestOK_peak_first)'
     if case.get('probes'):
         # merged datasets carry large token values whose float32 template storage is not exact: only the
         # index bookkeeping (raw indices, listed channels) and the geometry are claimed on them
@@ -231,12 +236,15 @@ def judge(case, impl_res, ans):
             return 'SPEC: amplitudes / assignments of the source model differ from the stored arrays'
     # 2b. the cluster waveforms everything below is derived from (C08): count-weighted means of the
     # templates on the dominant template's channels when the dataset is curated
-    I_AMP, I_PTT, I_DEP, I_C08, I_FD = 3, 4, 5, 6, 7
+    I_AMP, I_PTT, I_DEP, I_TPK, I_C08, I_FD = 3, 4, 5, 6, 7, 8
     curated = sm['spike_clusters'] != sm['spike_templates']
     if len(res) > I_C08 and 'data' in res[I_C08] and curated:
         exp_cw = [[[DC.to_float(x) for x in row] for row in M] for M in res[I_C08]['data']]
         if sm['clusters_wfs'] != exp_cw:
             return 'SPEC: cluster waveforms of the source are not the count-weighted template means on the dominant template\'s channels'
+    if sm['templates_channels'] != res[I_TPK]['peak']:
+        return 'SPEC: the peak channels %s that select the listed channels of the templates are not the peak channels of the stored templates %s' % (
+            sm['templates_channels'], res[I_TPK]['peak'])
     # 3. waveforms and amplitudes: the files of the Lean export model (unit factor included)
     bad = _judge_amp_files(ok, 'arrays', res[I_AMP], sm, label, '')
     if bad:
@@ -311,6 +319,9 @@ def tally(rep, case, impl_res, ans):
     if case.get('twice'):
         rep.count('two_exports_by_one_creator')
     rep.count('label:%s' % bool(case.get('label')))
+    pr = (case.get('spec') or {}).get('channel_probes')
+    if pr and pr != sorted(pr):
+        rep.count('interleaved_probe_labels')
 
 
 def classify(case, impl_res, ans, why):
@@ -349,6 +360,9 @@ def gen(tier, rng):
         else:
             spec = DC.dense_spec(rng, raw=(i % 4 == 1), feats=(i % 2 == 0), probes=(i % 5 == 0), empty=['none', 'last', 'middle'][i % 3],
                                  cmap=['random', 'identity'][i % 2])
+            if spec.get('channel_probes') and i % 10 == 5:
+                # probe labels that are neither 0-based nor sorted into blocks (interleaved shanks of two probes)
+                spec['channel_probes'] = [rng.pick([1, 3]) for _ in range(spec['n_channels'])]
             if i % 3 == 1:     # probe coordinates stored as integers
                 spec['dtypes'] = dict(spec.get('dtypes') or {}, channel_positions=['int32', 'uint32', 'int64', 'uint16'][(i // 3) % 4])
             yield dict(p=PID, spec=spec, factor=[1, 2.5][i % 2], label=['', 'probe00'][i % 7 == 0], n_closest=rng.pick([2, 3, 12]), reexport=(i % 4 == 1 and i % 7 != 0),
